@@ -68,6 +68,8 @@ func (ledger *SimpleLedger[T]) Set(item T) xerrors.XError {
 	ledger.mtx.Lock()
 	defer ledger.mtx.Unlock()
 
+	// the item may be re-created after being removed.
+	ledger.cachedItems.delRemovedKey(item.Key())
 	ledger.cachedItems.setUpdatedItem(item)
 	ledger.cachedItems.setGotItem(item)
 	return nil
